@@ -74,6 +74,7 @@ struct Plan
     std::vector<int> classOf; // final connected part of each variable
     int nClasses = 0;
     std::vector<int> defKind; // 0 none, 1 initial value, 2 equation
+    uint64_t defSeed = 0;
     bool removedSomething = false, removalSplit = false, tempBridge = false, readd = false, removeAll = false;
 };
 
@@ -127,6 +128,25 @@ int distance(int n, const std::set<std::pair<int, int>> &edges, int from, int to
         }
     }
     return d[static_cast<size_t>(to)];
+}
+
+// Valid mode: exactly one variable of every class is defined (initial value, or an equation if it lives in the one
+// component that may carry math: the validator parses the MathML DTD once per math block, which is costly).
+std::vector<int> validDefinitions(const Plan &p, const std::vector<int> &classOf, int nClasses)
+{
+    std::vector<int> defKind(static_cast<size_t>(p.nVars), 0);
+    bool withMath = (p.defSeed & 1) != 0;
+    int mathComp = static_cast<int>((p.defSeed >> 1) % static_cast<uint64_t>(p.nComps));
+    std::vector<std::vector<int>> members(static_cast<size_t>(nClasses));
+    for (int v = 0; v < p.nVars; ++v) {
+        members[static_cast<size_t>(classOf[static_cast<size_t>(v)])].push_back(v);
+    }
+    for (size_t k = 0; k < members.size(); ++k) {
+        int rep = members[k][(p.defSeed + k) % members[k].size()];
+        bool eqn = withMath && p.compOf[static_cast<size_t>(rep)] == mathComp && ((p.defSeed >> 3) + k) % 2 == 1;
+        defKind[static_cast<size_t>(rep)] = eqn ? 2 : 1;
+    }
+    return defKind;
 }
 
 Plan genPlan(Src &src)
@@ -341,17 +361,9 @@ Plan genPlan(Src &src)
     uint64_t defSeed = src.below(1u << 16);
     bool withMath = (defSeed & 1) != 0;
     int mathComp = static_cast<int>((defSeed >> 1) % static_cast<uint64_t>(p.nComps));
+    p.defSeed = defSeed;
     if (p.valid) {
-        std::vector<std::vector<int>> members(static_cast<size_t>(p.nClasses));
-        for (int v = 0; v < n; ++v) {
-            members[static_cast<size_t>(p.classOf[static_cast<size_t>(v)])].push_back(v);
-        }
-        for (size_t k = 0; k < members.size(); ++k) {
-            int rep = members[k][(defSeed + k) % members[k].size()];
-            // equations only in one component: the validator parses the MathML DTD once per math block (costly)
-            bool eqn = withMath && p.compOf[static_cast<size_t>(rep)] == mathComp && ((defSeed >> 3) + k) % 2 == 1;
-            p.defKind[static_cast<size_t>(rep)] = eqn ? 2 : 1;
-        }
+        p.defKind = validDefinitions(p, p.classOf, p.nClasses);
     } else {
         for (int v = 0; v < n; ++v) {
             uint64_t r = (defSeed + static_cast<uint64_t>(v) * 7) % 5;
@@ -440,13 +452,42 @@ void run(Src &src, Case &c)
         passes.push_back(ps);
     }
     Affine preOrder = genAffine(src, static_cast<uint64_t>(n) * static_cast<uint64_t>(n));
+    // history dimension (read last, so that tapes saved before it existed keep their meaning): the FIRST analyser is
+    // reused for 1-3 further analyses, with edits of the equivalence graph / a freshly built model in between
+    struct Round
+    {
+        int kind = 0; // 0 edit (toggle equivalences), 1 rewire (move one end of an equivalence), 2 fresh model after releasing the previous one, 3 unchanged
+        std::vector<std::pair<int, int>> edits;
+        Affine order;
+        int funcs = 0;
+    };
+    static const char *roundNames[] = {"edit", "rewire", "fresh-model", "unchanged"};
+    std::vector<Round> rounds(1 + src.below(3));
+    for (auto &r : rounds) {
+        r.kind = static_cast<int>(src.below(4));
+        size_t nEdits = 1 + src.below(3);
+        for (size_t e = 0; e < nEdits; ++e) {
+            int x = static_cast<int>(src.below(static_cast<uint64_t>(n)));
+            int y = static_cast<int>(src.below(static_cast<uint64_t>(n - 1)));
+            r.edits.emplace_back(x, y >= x ? y + 1 : y);
+        }
+        r.order = genAffine(src, static_cast<uint64_t>(n) * static_cast<uint64_t>(n));
+        r.funcs = static_cast<int>(src.below(3));
+    }
 
     std::ostringstream text;
     text << planText(p) << "\nqueries:";
     for (const auto &ps : passes) {
         text << " pass{order=" << ps.order.str() << (ps.transposed ? "T" : "") << " every=" << ps.stride << "+" << ps.phase << " funcs=" << ps.funcs << " model=" << ps.model << "}";
     }
-    text << " before-analysis order=" << preOrder.str();
+    text << " before-analysis order=" << preOrder.str() << "\nhistory (same Analyser re-used):";
+    for (const auto &r : rounds) {
+        text << " " << roundNames[r.kind] << "{";
+        for (const auto &e : r.edits) {
+            text << "(v" << e.first << ",v" << e.second << ")";
+        }
+        text << " order=" << r.order.str() << " funcs=" << r.funcs << "}";
+    }
     c.text = text.str();
     c.hash = hashStr(c.text);
     c.weight = c.text.size();
@@ -483,37 +524,57 @@ void run(Src &src, Case &c)
     if (sameCompEdge) c.cls("equivalence-within-one-component");
 
     // ---- build through the API
-    ModelPtr model = Model::create("m");
+    ModelPtr model;
     std::vector<ComponentPtr> comps;
-    for (int k = 0; k < p.nComps; ++k) {
-        auto comp = Component::create("c" + std::to_string(k));
-        model->addComponent(comp);
-        comps.push_back(comp);
-    }
     std::vector<VariablePtr> vars;
-    std::vector<std::string> mathOf(static_cast<size_t>(p.nComps));
-    for (int v = 0; v < n; ++v) {
-        auto var = Variable::create("v" + std::to_string(v));
-        var->setUnits("dimensionless");
-        var->setInterfaceType("public");
-        int dk = p.defKind[static_cast<size_t>(v)];
-        if (dk == 1) {
-            var->setInitialValue(static_cast<double>(v + 1));
-        } else if (dk == 2) {
-            mathOf[static_cast<size_t>(p.compOf[static_cast<size_t>(v)])] += "<apply><eq/><ci>v" + std::to_string(v) + "</ci><cn cellml:units=\"dimensionless\">" + std::to_string(v + 1) + "</cn></apply>";
-        }
-        comps[static_cast<size_t>(p.compOf[static_cast<size_t>(v)])]->addVariable(var);
-        vars.push_back(var);
-    }
-    for (int k = 0; k < p.nComps; ++k) {
-        if (!mathOf[static_cast<size_t>(k)].empty()) {
-            comps[static_cast<size_t>(k)]->setMath("<math xmlns=\"http://www.w3.org/1998/Math/MathML\" xmlns:cellml=\"http://www.cellml.org/cellml/2.0#\">" + mathOf[static_cast<size_t>(k)] + "</math>");
-        }
-    }
     std::map<const Variable *, int> indexOf;
-    for (int v = 0; v < n; ++v) {
-        indexOf[vars[static_cast<size_t>(v)].get()] = v;
-    }
+    // (Re)defines the variables of the current world: initial values and the math block of every component.
+    auto applyDefinitions = [&](const std::vector<int> &defKind) {
+        std::vector<std::string> mathOf(static_cast<size_t>(p.nComps));
+        for (int v = 0; v < n; ++v) {
+            const auto &var = vars[static_cast<size_t>(v)];
+            int dk = defKind[static_cast<size_t>(v)];
+            var->removeInitialValue();
+            if (dk == 1) {
+                var->setInitialValue(static_cast<double>(v + 1));
+            } else if (dk == 2) {
+                mathOf[static_cast<size_t>(p.compOf[static_cast<size_t>(v)])] += "<apply><eq/><ci>v" + std::to_string(v) + "</ci><cn cellml:units=\"dimensionless\">" + std::to_string(v + 1) + "</cn></apply>";
+            }
+        }
+        for (int k = 0; k < p.nComps; ++k) {
+            comps[static_cast<size_t>(k)]->removeMath();
+            if (!mathOf[static_cast<size_t>(k)].empty()) {
+                comps[static_cast<size_t>(k)]->setMath("<math xmlns=\"http://www.w3.org/1998/Math/MathML\" xmlns:cellml=\"http://www.cellml.org/cellml/2.0#\">" + mathOf[static_cast<size_t>(k)] + "</math>");
+            }
+        }
+    };
+    // Builds a fresh world (new objects; the previous one is released by the assignments) with the given equivalences.
+    auto buildWorld = [&](const std::vector<int> &defKind, const std::set<std::pair<int, int>> &edges) {
+        indexOf.clear();
+        vars.clear();
+        comps.clear();
+        model = Model::create("m");
+        for (int k = 0; k < p.nComps; ++k) {
+            auto comp = Component::create("c" + std::to_string(k));
+            model->addComponent(comp);
+            comps.push_back(comp);
+        }
+        for (int v = 0; v < n; ++v) {
+            auto var = Variable::create("v" + std::to_string(v));
+            var->setUnits("dimensionless");
+            var->setInterfaceType("public");
+            comps[static_cast<size_t>(p.compOf[static_cast<size_t>(v)])]->addVariable(var);
+            vars.push_back(var);
+        }
+        applyDefinitions(defKind);
+        for (int v = 0; v < n; ++v) {
+            indexOf[vars[static_cast<size_t>(v)].get()] = v;
+        }
+        for (const auto &e : edges) {
+            Variable::addEquivalence(vars[static_cast<size_t>(e.first)], vars[static_cast<size_t>(e.second)]);
+        }
+    };
+    buildWorld(p.defKind, {});
 
     // Reference answers for an edge set: reachability by the harness's union-find; adjacency lists read back through
     // equivalentVariable(i) must describe the same graph (otherwise the "chain of equivalences" is not well defined).
@@ -687,6 +748,173 @@ void run(Src &src, Case &c)
             }
         }
     }
+    // ---- history: the first Analyser is used again after the connection graph was edited (or for a freshly built
+    // model). Every analysis must yield an analyser model that answers for the graph as it is at that analysis, and the
+    // verdict (type, issues) must be that of a fresh Analyser on the same model.
+    {
+        AnalyserPtr reused = analysers[0];
+        AnalyserModelPtr previous = ams[0];
+        ams.clear(); // the harness keeps no old analyser model alive
+        if (analysers.size() > 1) {
+            analysers.pop_back();
+        }
+        std::set<std::pair<int, int>> edges = p.finalEdges;
+        std::vector<int> defKind = p.defKind;
+        std::vector<int> rcls = p.classOf;
+        int rClasses = p.nClasses;
+        auto admissible = [&](int x, int y) -> bool {
+            if (x == y || edges.count(ord(x, y)) != 0) {
+                return false;
+            }
+            if (!p.valid) {
+                return true;
+            }
+            // valid mode: the merged class must not have two variables in one component
+            std::set<int> used;
+            for (int v = 0; v < n; ++v) {
+                if (rcls[static_cast<size_t>(v)] == rcls[static_cast<size_t>(x)] || rcls[static_cast<size_t>(v)] == rcls[static_cast<size_t>(y)]) {
+                    if (!used.insert(p.compOf[static_cast<size_t>(v)]).second) {
+                        return false;
+                    }
+                }
+            }
+            return true;
+        };
+        long edited = 0;
+        for (size_t r = 0; r < rounds.size(); ++r) {
+            const Round &rd = rounds[r];
+            const std::string rname = roundNames[rd.kind];
+            c.cls("history:" + rname);
+            bool live = rd.kind != 2; // kind 2 edits the specification only and then builds new objects
+            auto add = [&](int x, int y) {
+                edges.insert(ord(x, y));
+                rClasses = components(n, edges, rcls);
+                if (live) {
+                    Variable::addEquivalence(vars[static_cast<size_t>(x)], vars[static_cast<size_t>(y)]);
+                }
+                ++edited;
+            };
+            auto remove = [&](int x, int y) {
+                edges.erase(ord(x, y));
+                rClasses = components(n, edges, rcls);
+                if (live) {
+                    Variable::removeEquivalence(vars[static_cast<size_t>(x)], vars[static_cast<size_t>(y)]);
+                }
+                ++edited;
+            };
+            auto addNear = [&](int x, int y, int avoid) -> bool {
+                for (int dy = 0; dy < n; ++dy) {
+                    int yy = (y + dy) % n;
+                    if (yy != avoid && admissible(x, yy)) {
+                        add(x, yy);
+                        return true;
+                    }
+                }
+                return false;
+            };
+            if (rd.kind != 3) {
+                for (const auto &e : rd.edits) {
+                    if (rd.kind == 1 && !edges.empty()) {
+                        // move one end of an existing equivalence to another variable
+                        auto it = edges.begin();
+                        std::advance(it, static_cast<long>(static_cast<size_t>(e.first) % edges.size()));
+                        int a = it->first, b = it->second;
+                        remove(a, b);
+                        addNear(a, e.second, b);
+                    } else if (edges.count(ord(e.first, e.second)) != 0) {
+                        remove(e.first, e.second);
+                    } else if (!addNear(e.first, e.second, -1)) {
+                        // nothing can be added at this variable: remove one of its equivalences instead, if any
+                        for (const auto &ex : edges) {
+                            if (ex.first == e.first || ex.second == e.first) {
+                                remove(ex.first, ex.second);
+                                break;
+                            }
+                        }
+                    }
+                }
+                if (p.valid) {
+                    defKind = validDefinitions(p, rcls, rClasses);
+                }
+                if (live) {
+                    applyDefinitions(defKind);
+                } else {
+                    handles.clear();
+                    buildWorld(defKind, edges);
+                }
+                handles.clear();
+                for (int v = 0; v < n; ++v) {
+                    handles.push_back(comps[static_cast<size_t>(p.compOf[static_cast<size_t>(v)])]->variable("v" + std::to_string(v)));
+                }
+            }
+            if (!checkAdjacency(edges, "history")) {
+                return;
+            }
+            reused->analyseModel(model);
+            AnalyserModelPtr am = reused->model();
+            auto fresh = Analyser::create();
+            fresh->analyseModel(model);
+            AnalyserModelPtr fam = fresh->model();
+            VP_CHECK(c, am != nullptr && fam != nullptr, "C18.harness|no-analyser-model", "Analyser::model() returned null after analyseModel()");
+            // When validation fails Analyser::analyseModel() keeps its previous AnalyserModel object (it belongs to the
+            // earlier snapshot; DESIGN section 3 row 12, property C12): such a model is not judged against the new graph.
+            bool replaced = am.get() != previous.get();
+            if (!replaced) {
+                c.cls("history:analyser-model-not-replaced");
+                c.count("excluded:analyser-model-not-replaced");
+            }
+            if (p.valid && !am->isValid()) {
+                c.count("valid_mode_analysis_invalid");
+            }
+            for (uint64_t q = 0; q < total; ++q) {
+                uint64_t idx = rd.order.at(q);
+                int i = static_cast<int>(idx / static_cast<uint64_t>(n));
+                int j = static_cast<int>(idx % static_cast<uint64_t>(n));
+                bool same = i == j;
+                bool expected = same || rcls[static_cast<size_t>(i)] == rcls[static_cast<size_t>(j)];
+                const auto &x = (q & 4) != 0 ? handles[static_cast<size_t>(i)] : vars[static_cast<size_t>(i)];
+                const auto &y = (q & 8) != 0 ? handles[static_cast<size_t>(j)] : vars[static_cast<size_t>(j)];
+                for (int which = 0; which < 2; ++which) {
+                    bool useFresh = (which == 0) == (rd.funcs == 1);
+                    if ((useFresh && rd.funcs == 2 && (q & 1) != 0) || (!useFresh && !replaced)) {
+                        continue;
+                    }
+                    bool got = (useFresh ? fam : am)->areEquivalentVariables(x, y);
+                    ++amQueries;
+                    if (got != expected) {
+                        int d = same ? 0 : distance(n, edges, i, j);
+                        std::ostringstream m;
+                        m << "analysis " << r + 2 << " (" << rname << "): AnalyserModel::areEquivalentVariables(v" << i << ", v" << j << ") of the " << (useFresh ? "fresh" : "re-used") << " Analyser's model = " << got << ", expected "
+                          << expected << " (distance in the current connection graph: " << d << "); current equivalences:";
+                        for (const auto &e : edges) {
+                            m << " v" << e.first << "~v" << e.second;
+                        }
+                        c.fail(std::string("C18.am-history") + (useFresh ? "-fresh" : "") + "|" + rname + "|" + kindOf(expected, d, same), m.str());
+                        return;
+                    }
+                }
+                if (!checkHas(edges, rcls, i, j, "history")) {
+                    return;
+                }
+            }
+            // verdict of the re-used analyser == verdict of a fresh one (judged after the queries: the statement is about the answers)
+            if (am->type() != fam->type()) {
+                c.fail("C18.verdict|" + rname + "|type", "analysis " + std::to_string(r + 2) + " with the re-used Analyser gives type " + AnalyserModel::typeAsString(am->type()) + ", a fresh Analyser gives "
+                                                             + AnalyserModel::typeAsString(fam->type()) + "\nre-used: " + dumpIssues(reused).substr(0, 1500) + "\nfresh: " + dumpIssues(fresh).substr(0, 1500));
+                return;
+            }
+            {
+                std::string i1 = dumpIssues(reused), i2 = dumpIssues(fresh);
+                if (i1 != i2) {
+                    c.fail("C18.verdict|" + rname + "|issues", "analysis " + std::to_string(r + 2) + ": issues of the re-used Analyser differ from those of a fresh Analyser\n" + firstDiff(i2, i1));
+                    return;
+                }
+            }
+            previous = am;
+        }
+        c.count("history:analyses", static_cast<long>(rounds.size()));
+        c.count("history:edits", edited);
+    }
     c.count("queries:hasEquivalentVariable", queries);
     c.count("queries:areEquivalentVariables", amQueries);
     c.count("queries:areEquivalentVariables-repeats", repeats);
@@ -702,13 +930,16 @@ Property property = {
     "rapidcheck tapes generate connection graphs over 2-40 variables in 1-8 components (parts shaped as chain, star, cycle, clique, tree, random, pair, isolated variable; temporary equivalences between any two variables; "
     "removals by removeEquivalence / removeAllEquivalences; re-additions) and build them through the API, either valid by construction (analysis succeeds) or free (equivalences inside one component, undefined variables). "
     "Every ordered pair is asked through Variable::hasEquivalentVariable(v,true) after the additions, after the removals and after the analysis, and through AnalyserModel::areEquivalentVariables of one or two analyser models "
-    "in 1-3 passes with tape-chosen affine orders, strides, transposition and interleaving of the two functions. Oracle: union-find reachability over the harness's own edge set, which must equal the adjacency read back through "
+    "in 2-3 passes with tape-chosen affine orders, strides, transposition and interleaving of the two functions. History: the first Analyser is then re-used for 1-3 further analyses, each after tape-chosen edits "
+    "(toggle equivalences, move one end of an equivalence, build the edited graph afresh from new objects after releasing the old ones, or no edit; valid mode stays valid, definitions are re-assigned); after each analysis all ordered pairs are asked on the "
+    "re-used Analyser's new model, on a fresh Analyser's model and through hasEquivalentVariable, and type and issues of the two analysers must be equal. Oracle: union-find reachability over the harness's own edge set, which must equal the adjacency read back through "
     "equivalentVariable(i). Domain 2 (props/C18_addr.cpp, plain build that owns operator new) places the Variable objects at constructed addresses. "
     "Non-trivial: the final graph has at least two connected parts of size >= 2 and there are at least two query passes (a pair is revisited after unrelated pairs); for domain 2 every address quadruple. Distinct = hash of the plan text.",
     run,
     nullptr,
     {"hasEquivalentVariable(v, true) of a variable with itself is not judged (the statement claims the same-variable case for the analyser model only)",
      "the analyser model is queried only while the model is unchanged since the analysis (the cache is documented to assume a static model)",
-     "domain 1 runs with whatever addresses the ASan allocator hands out; constructed addresses are domain 2"},
+     "domain 1 runs with whatever addresses the ASan allocator hands out (freed blocks are quarantined, so a freshly built model does not recycle addresses there); constructed and recycled addresses are domain 2",
+     "when validation fails Analyser::analyseModel() keeps its previous AnalyserModel object (C12 territory): that object is not judged against the edited graph, only counted"},
 };
 }
